@@ -202,7 +202,10 @@ def t_coef(p, dt, zs):
             damp = 1.0 if is_exp else np.exp(np.minimum(0.0, zeff.real + 1.0))
             cond = 32 * feps * az * damp          # conditioning of exp(z) w.r.t. one rounding of z
             if sess == "float64":
-                tol = (1e-9 + cond) * np.abs(ref) + 1e-300
+                # relative to the natural size dt * min(1, 1/|z|) of a phi-coefficient as well: at exp(z) = 1, z != 0 the reference itself is
+                # a rounding residue (phi_1(2 pi i) = 0) and a purely relative tolerance would be meaningless
+                nat64 = 0.0 if is_exp else dt * np.minimum(1.0, 1.0 / np.maximum(az, 1e-30))
+                tol = (1e-9 + cond) * (np.abs(ref) + nat64) + 1e-300
                 chk = cond < 1e-3
             else:
                 nat = 0.0 if is_exp else dt * np.minimum(1.0, 1.0 / np.maximum(az, 1e-30))
@@ -353,6 +356,7 @@ def ladder_symbols(rng, extra):
         m = 10.0 ** rng.uniform(-9, 15)
         th = rng.uniform(np.pi / 2, 3 * np.pi / 2)
         zs.append(complex(m * np.cos(th), m * np.sin(th)) if rng.random() < 0.7 else complex(-m, 0))
+    zs += [complex(0, 2 * np.pi * j) for j in (1, -1, 3, 2)] + [complex(0, 2 * np.pi * 3 * (1 + 1e-7))]     # exp(z) = 1, exp(z/2) = -1 with z != 0
     zs = [complex(min(z.real, 0.0), z.imag) for z in zs]          # Re z <= 0 exactly
     out, seen = [], set()
     for z in zs:
